@@ -2,7 +2,9 @@
    (statements only; model in MetaModel.v, specification in MetaSpec.v, proofs in MetaGeom.v and MetaProofs.v).
 
    Reading guide.  A history is a list of events: [EStep i] (a step of the engine: step number, relative step,
-   repeated-step flag, the values of the variables, each a list of components) or [ESave] (the state is written).
+   repeated-step flag, the values of the variables, each a list of components), [ESave] (the state is written),
+   [ERestart None] (the state is written and read by a fresh instance with the same configuration) or
+   [ERestart (Some g)] (the same with rebinGrids on and the new grid boundaries g).
    [final_state Rops c hist] is the state of the model of colvarbias_meta after the history;
    [out_energy c hist i] / [out_force c hist i k] are the energy and the force on variable k (a list of components)
    that update() returns at the next step i.  The specification keeps only the list of hills deposited so far,
@@ -18,36 +20,41 @@
                          vector), set to 0 when the exponent exceeds 23 (the kernel as implemented)
      spec_expand       = expandBoundaries: the grid grows by whole bins (next_geom)
    Premises: [cfg_ok c] (positive sigmas and widths, sigma = width*hillWidth/2 when hillWidth is given; with grids:
-   scalar variables, upper = lower + nx*width, no expandBoundaries on a periodic variable) and, with grids, every
-   step has one value per variable, not beyond a boundary declared hard and not beyond a grid that covers part of
-   the range of a periodic variable ([adm]).  Nothing is assumed without grids.
-   All statements hold for the code with the five `fix:` commits of branch fix-C05 (known_findings.txt); the
+   scalar variables, upper = lower + nx*width, no expandBoundaries on a periodic variable) and [history_ok c hist]:
+   with grids, every step has one value per variable, not beyond a boundary declared hard and not beyond a grid that
+   covers part of the range of a periodic variable ([adm]), and a rebinning restart happens with keepHills, onto
+   well-formed boundaries, with every hill at least min_buffer bins inside the expandable edges of the new grid
+   ([rebin_ok]; vacuous without expandBoundaries).  Nothing is assumed without grids.  [plain_history_ok]: a list of
+   admissible steps, saves and plain restarts is such a history.
+   All statements hold for the code with the six `fix:` commits of branch fix-C05 (known_findings.txt); the
    witnesses of the defects they repair are replayed by props/C05/check.py. *)
 From Coq Require Import ZArith List Bool Reals Lia Lra.
 From CV Require Import Base.Num Base.RNum C15.GridModel C05.MetaModel C05.MetaSpec C05.MetaGeom C05.MetaProofs C05.MetaExamples.
 Import ListNotations.
 
 (* Energy: at every step, on and off the grid, with and without grids, well-tempered or not, whatever
-   gridsUpdateFrequency, keepHills, expandBoundaries, run boundaries and state saves. *)
+   gridsUpdateFrequency, keepHills, expandBoundaries, run boundaries, state saves, restarts and rebinning. *)
 Theorem C05_energy : forall (c : cfgR) (hist : list eventR) (i : inR),
-  cfg_ok c -> Forall (adm_event c) (hist ++ [EStep i]) ->
+  cfg_ok c -> history_ok c (hist ++ [EStep i]) ->
   out_energy c hist i = spec_energy c (spec_run c (hist ++ [EStep i])) (i_x i).
 Proof. exact energy_holds. Qed.
 Print Assumptions C05_energy.
 
 (* Force on variable k, component j. *)
 Theorem C05_force : forall (c : cfgR) (hist : list eventR) (i : inR) (k j : nat),
-  cfg_ok c -> Forall (adm_event c) (hist ++ [EStep i]) -> (k < length (c_vars c))%nat ->
+  cfg_ok c -> history_ok c (hist ++ [EStep i]) -> (k < length (c_vars c))%nat ->
   nth j (out_force c hist i k) 0%R = spec_force c (spec_run c (hist ++ [EStep i])) (i_x i) k j.
 Proof. exact force_holds. Qed.
 Print Assumptions C05_force.
 
 (* Schedule: the explicit hill list of the implementation is the list of deposited hills not yet tabulated (after
-   new_hills_begin), preceded by the tabulated ones when keepHills is on; the geometry is the specified one. *)
+   new_hills_begin), preceded by the tabulated ones when keepHills is on (without keepHills: by some of them, namely
+   none, or after a restart those near the grid's edges until the next projection); the geometry is the specified one. *)
 Theorem C05_schedule : forall (c : cfgR) (hist : list eventR),
-  cfg_ok c -> Forall (adm_event c) hist ->
+  cfg_ok c -> history_ok c hist ->
   st_new (final_state Rops c hist) = s_pend (spec_run c hist) /\
-  st_old (final_state Rops c hist) = (if c_keep c then s_tab (spec_run c hist) else []) /\
+  (c_keep c = true -> st_old (final_state Rops c hist) = s_tab (spec_run c hist)) /\
+  Dropped (fun _ => True) (s_tab (spec_run c hist)) (st_old (final_state Rops c hist)) /\
   st_geom (final_state Rops c hist) = s_geom (spec_run c hist).
 Proof. exact schedule_holds. Qed.
 Print Assumptions C05_schedule.
@@ -67,6 +74,11 @@ Theorem C05_deposited_save : forall (c : cfgR) (hist : list eventR),
   s_all (spec_run c (hist ++ [ESave])) = s_all (spec_run c hist).
 Proof. exact deposited_save. Qed.
 Print Assumptions C05_deposited_save.
+
+Theorem C05_deposited_restart : forall (c : cfgR) (hist : list eventR) (r : option (list boundR)),
+  s_all (spec_run c (hist ++ [ERestart r])) = s_all (spec_run c hist).
+Proof. exact deposited_restart. Qed.
+Print Assumptions C05_deposited_restart.
 
 Theorem C05_deposited_plain : forall (c : cfgR) (hist : list eventR), c_wt c = false ->
   s_all (spec_run c hist) =
@@ -88,10 +100,23 @@ Theorem C05_tabulated_save : forall (c : cfgR) (hist : list eventR), c_use_grids
 Proof. exact tabulated_save. Qed.
 Print Assumptions C05_tabulated_save.
 
+Theorem C05_tabulated_restart : forall (c : cfgR) (hist : list eventR) (r : option (list boundR)),
+  c_use_grids c = true -> s_pend (spec_run c (hist ++ [ERestart r])) = [].
+Proof. exact tabulated_restart. Qed.
+Print Assumptions C05_tabulated_restart.
+
+(* rebinGrids: after the restart the grids have the new boundaries and every hill deposited so far is tabulated on
+   them (C05_grid_is_projected_sum then says that every bin of the new grids holds the sum of all hills there) *)
+Theorem C05_rebin_from_hills : forall (c : cfgR) (hist : list eventR) (g' : list boundR), c_use_grids c = true ->
+  s_geom (spec_run c (hist ++ [ERestart (Some g')])) = g' /\
+  s_tab (spec_run c (hist ++ [ERestart (Some g')])) = s_all (spec_run c hist).
+Proof. exact rebin_geometry. Qed.
+Print Assumptions C05_rebin_from_hills.
+
 (* Every bin of the energy grid holds the sum of the tabulated hills at the centre of the bin, every bin of the
    gradient grid the sum of their gradients (= minus the forces) there -- also the bins added by expandBoundaries. *)
 Theorem C05_grid_is_projected_sum : forall (c : cfgR) (hist : list eventR),
-  cfg_ok c -> Forall (adm_event c) hist ->
+  cfg_ok c -> history_ok c hist ->
   forall ix : list Z, index_ok (gsizes (s_geom (spec_run c hist))) ix = true ->
     st_e (final_state Rops c hist) ix =
       Esum (c_vars c) (s_tab (spec_run c hist)) (centre Rops (c_vars c) (s_geom (spec_run c hist)) ix) /\
@@ -100,39 +125,52 @@ Theorem C05_grid_is_projected_sum : forall (c : cfgR) (hist : list eventR),
 Proof. exact grid_is_projected_sum. Qed.
 Print Assumptions C05_grid_is_projected_sum.
 
-(* expandBoundaries: the grids only grow, by whole bins on the same lattice, only along variables with
-   expandBoundaries and never beyond a boundary declared hard. *)
+(* expandBoundaries: the grids only grow from the boundaries of the (last) configuration, by whole bins on the same
+   lattice, only along variables with expandBoundaries and never beyond a boundary declared hard. *)
 Theorem C05_expand_lattice : forall (c : cfgR) (hist : list eventR),
-  cfg_ok c -> Forall (adm_event c) hist -> c_use_grids c = true ->
-  All3 (fun v b b' => gstep v b b') (c_vars c) (c_geom0 c) (s_geom (spec_run c hist)).
+  cfg_ok c -> history_ok c hist -> c_use_grids c = true ->
+  All3 (fun v b b' => gstep v b b') (c_vars c) (final_base c hist) (s_geom (spec_run c hist)).
 Proof. exact geometry_grows. Qed.
 Print Assumptions C05_expand_lattice.
 
-(* keepHills changes neither the energy nor the forces. *)
+(* keepHills changes neither the energy nor the forces (for a history admissible with both settings: a rebinning
+   restart needs keepHills). *)
 Theorem C05_keep_hills_irrelevant : forall (c : cfgR) (b : bool) (hist : list eventR) (i : inR),
-  cfg_ok c -> Forall (adm_event c) (hist ++ [EStep i]) ->
+  cfg_ok c -> history_ok c (hist ++ [EStep i]) -> history_ok (set_keep c b) (hist ++ [EStep i]) ->
   out_energy (set_keep c b) hist i = out_energy c hist i /\
   forall k j, (k < length (c_vars c))%nat ->
     nth j (out_force (set_keep c b) hist i k) 0%R = nth j (out_force c hist i k) 0%R.
 Proof. exact keep_hills_irrelevant. Qed.
 Print Assumptions C05_keep_hills_irrelevant.
 
+(* a list of admissible steps, saves and plain restarts is an admissible history *)
+Theorem C05_plain_history_ok : forall (c : cfgR) (hist : list eventR),
+  Forall (plain_event c) hist -> history_ok c hist.
+Proof. exact plain_history_ok. Qed.
+Print Assumptions C05_plain_history_ok.
+
 (* non-vacuity: the premises are satisfiable by configurations with grids (a hill deposited and tabulated, a step
    on and a step off the grid), with expandBoundaries, with a periodic grid, well-tempered, and without grids on a
    3-vector and a unit-vector variable *)
 Example C05_premises_satisfiable :
-  cfg_ok w_cfg /\ Forall (adm_event w_cfg) ([EStep w_i1] ++ [EStep w_i2]) /\
+  cfg_ok w_cfg /\ history_ok w_cfg ([EStep w_i1] ++ [EStep w_i2]) /\
   in_grid w_cfg (c_geom0 w_cfg) (i_x w_i1) = true /\ in_grid w_cfg (c_geom0 w_cfg) (i_x w_i2) = false /\
   eligible w_cfg w_i1 = true /\
   spec_run w_cfg ([EStep w_i1] ++ [EStep w_i2]) = mkS [mkHill 2%Z 1%R [[(3/2)%R]]] [] (c_geom0 w_cfg).
 Proof. exact w_example. Qed.
 
 Example C05_premises_satisfiable_expand_periodic_wt :
-  cfg_ok x_cfg /\ Forall (adm_event x_cfg) [EStep x_i1; ESave; EStep x_i2] /\
+  cfg_ok x_cfg /\ history_ok x_cfg [EStep x_i1; ESave; EStep x_i2; ERestart None; EStep x_i2] /\
   c_wt x_cfg = true /\ existsb (@v_expand R) (c_vars x_cfg) = true /\ existsb (@v_gperiodic R) (c_vars x_cfg) = true.
 Proof. exact x_example. Qed.
 
 Example C05_premises_satisfiable_vectors :
-  cfg_ok v_cfg /\ Forall (adm_event v_cfg) [EStep v_i1; EStep v_i2] /\ c_use_grids v_cfg = false /\
+  cfg_ok v_cfg /\ history_ok v_cfg [EStep v_i1; ERestart None; EStep v_i2] /\ c_use_grids v_cfg = false /\
   map (@v_kind R) (c_vars v_cfg) = [KVec3; KUnit3] /\ eligible v_cfg v_i1 = true.
 Proof. exact v_example. Qed.
+
+Example C05_premises_satisfiable_rebin :
+  cfg_ok r_cfg /\ history_ok r_cfg [EStep w_i1; ERestart (Some r_g); EStep w_i2] /\
+  spec_run r_cfg [EStep w_i1; ERestart (Some r_g); EStep w_i2] = mkS [mkHill 2%Z 1%R [[(3/2)%R]]] [] r_g /\
+  in_grid r_cfg r_g (i_x w_i2) = true.
+Proof. exact r_example. Qed.
